@@ -1,6 +1,7 @@
 (* C14/Spec.v — independent specification: mixed-radix positional value, written by structural
    recursion without accumulators (so it is not a copy of the code's loop). *)
 From Coq Require Import List Arith.
+From AIT Require Import C14.Model.
 Import ListNotations.
 
 Fixpoint radix_value (space f : list nat) : nat :=
@@ -12,3 +13,26 @@ Fixpoint radix_value (space f : list nat) : nat :=
 Definition in_space (space f : list nat) : Prop := Forall2 (fun sp x => x < sp) space f.
 
 Definition sub (ids l : list nat) : list nat := map (fun k => nth k l 0) ids.
+
+(* ---- enumerators ------------------------------------------------------------------------------ *)
+Fixpoint remove_at {A : Type} (p : nat) (l : list A) {struct l} : list A :=
+  match l with [] => [] | x :: t => match p with 0 => t | S p' => x :: remove_at p' t end end.
+Fixpoint insert_at {A : Type} (p : nat) (a : A) (l : list A) : list A :=
+  match p with 0 => a :: l | S p' => match l with [] => [] | x :: t => x :: insert_at p' a t end end.
+
+(* The i-th assignment a PartialFactorsEnumerator over [keys] must show: the mixed-radix digits of i
+   over the keys, except that the key at position [skipId] (if there is one) does not take part and
+   is held at 0. *)
+Definition enum_nth (F keys : list nat) (skipId i : nat) : list nat :=
+  if skipId <? length keys
+  then insert_at skipId 0 (toFactorsPartial (remove_at skipId keys) F i)
+  else toFactorsPartial keys F i.
+Definition enum_count (F keys : list nat) (skipId : nat) : nat :=
+  match keys with
+  | [] => 0
+  | _ => factorSpacePartial (if skipId <? length keys then remove_at skipId keys else keys) F
+  end.
+
+(* PartialIndexEnumerator: indices (in the enumeration order of [keys]) whose digit at position [p] is [val] *)
+Definition index_enum_spec (F keys : list nat) (p val : nat) : list nat :=
+  filter (fun i => nth p (toFactorsPartial keys F i) 0 =? val) (seq 0 (factorSpacePartial keys F)).
